@@ -108,6 +108,17 @@ Theorem C19_total_commitment_fee : forall i,
 Proof. exact commitment_fee_total. Qed.
 Print Assumptions C19_total_commitment_fee.
 
+
+(** The message-fee distribution accumulated over the messages of a transaction: after ANY
+    sequence of Increase calls (any amounts, bips 0..10000, with or without recipient) the total
+    equals the module part plus the recipients' parts, and no part is negative. *)
+Theorem C19_distribution_adds_up : forall ops,
+  Forall (fun o => let '(_, bips, _) := o in 0 <= bips <= 10000) ops ->
+  let d := dist_run dist_empty ops in
+  d_total d = d_module d + recips_sum (d_recips d) /\ 0 <= d_module d /\ Forall (fun p => 0 <= snd p) (d_recips d).
+Proof. intros ops H. exact (dist_run_ok ops dist_empty dist_empty_ok H). Qed.
+Print Assumptions C19_distribution_adds_up.
+
 (** Non-vacuity: concrete inputs beyond 2^64 meet the hypotheses and round as stated. *)
 Example C19_witness :
   apply_loosely 3 2 (2 ^ 70 + 1) = Some ((2 ^ 71 + 2) / 3 + 1, true) /\
